@@ -90,4 +90,15 @@ def generate(rng, tier, focus):
             b = scen.rand_chain(rng, ["cold", 1], rng.choice([0, 1]))
             p = scen.rand_chain(rng, scen.multi_op(rng, opn, a, [b, ["cold", 2]][: rng.choice([1, 2])]), rng.choice([0, 1]))
             cases.append((scn(srcs=[src([s, s], False) for s in scripts], handles=1, script_=[sub(0, p)]), {"k": "nest-cold"}))
+    # dynamic operators over hot sources: every interleaving of short scripts (judged by the three-way correspondence)
+    ev3 = [(h, ev) for h in (0, 1, 2) for ev in (n(1), n(2), C, e(7))]
+    for opn, ps, others in [("flat_map", [["mod"]], [["hot", 1], ["hot", 2]]), ("concat", [], [["hot", 1], ["hot", 2]]),
+                            ("switch_on_next", [], [["hot", 1]]), ("on_error_resume_next", [], [["hot", 1], ["hot", 2]]),
+                            ("flat_map", [["mod"]], [["hot", 1], ["just", 5]])]:
+        p = op(opn, ps, ["hot", 0], *others)
+        for k in range(2, (5 if thorough else 4) + 1):
+            for t in itertools.product(ev3, repeat=k):
+                if rng.random() > ((0.08 if thorough else 0.03) if k >= 4 else (0.5 if k == 3 else 1.0)):
+                    continue
+                cases.append((scn(subjects=[["subject"]] * 3, handles=1, script_=[sub(0, p)] + [["emit", h, ev] for (h, ev) in t]), {"k": "dyn-hot"}))
     return cases
